@@ -357,6 +357,76 @@ def api_c_split3(i1, i2, i3):
     return {"ddl": text, "got": got, "expected_entities": want, "reproduced": not ok}
 
 
+# ---------------------------------------------------------------- C05: layout of several statements, with / without ';' ----
+L3_STMTS = [("CREATE TABLE a", ["x int", "y varchar(10)"]), ("CREATE TABLE b", ["p int NOT NULL", "q int"]), ("CREATE TABLE c", ["k int", "m int DEFAULT 1"]),
+            ("CREATE TABLE d", ["z int"])]
+
+
+def _l3_lines(si, layout, semi, crlf):
+    head, cols = L3_STMTS[si]
+    end = ";" if semi else ""
+    if layout == 0:
+        lines = [head + " (" + ", ".join(cols) + ")" + end]
+    elif layout == 1:   # the usual pretty-printed form: '(' on the CREATE line, one column per line
+        lines = [head + " ("] + ["    " + c + ("," if i < len(cols) - 1 else "") for i, c in enumerate(cols)] + [")" + end]
+    elif layout == 2:   # '(' on its own line
+        lines = [head, "("] + ["  " + c + ("," if i < len(cols) - 1 else "") for i, c in enumerate(cols)] + [")" + end]
+    else:               # leading-comma style
+        lines = [head + " (", "  " + cols[0]] + ["  , " + c for c in cols[1:]] + [")" + end]
+    return [ln + ("\\r" if crlf else "") for ln in lines]
+
+
+L3_SEMI = env_int("VF_L3_SEMI", -1)
+L3_L4 = env_int("VF_L3_L4", -1)
+L3_ONE = [lexer_view(run_lines(_l3_lines(si, 0, True, False))) for si in range(len(L3_STMTS))]
+
+
+def c_layout3(l1: int, l2: int, l3: int, l4: int, semi: bool, blank: bool, crlf: bool) -> bool:
+    """
+    C05: four CREATE TABLE statements, each laid out in one of 4 ways (one line / '(' on the
+    CREATE line and one column per line / '(' on its own line / leading commas), terminated by
+    ';' or only by the next CREATE line, optionally separated by blank lines, LF or CRLF: the
+    parser is handed exactly the four statements of the one-line spelling.
+
+    pre: 0 <= l1 <= 3 and 0 <= l2 <= 3 and 0 <= l3 <= 3 and 0 <= l4 <= 3
+    pre: L3_SEMI < 0 or semi == bool(L3_SEMI)
+    pre: L3_L4 < 0 or l4 == L3_L4
+    post: _
+    """
+    lines = []
+    for si, lay in enumerate((l1, l2, l3, l4)):
+        lines += _l3_lines(si, lay, semi, crlf)
+        if blank:
+            lines.append("\\r" if crlf else "")
+    got = lexer_view(run_lines(lines + [""]))
+    want = [x for v in L3_ONE for x in v]
+    # a statement ended only by the next CREATE line reaches the parser without its closing ')' line (the grammar
+    # builds the table without it - confirmed by the public-API replay): trailing ')' / ';' words are not compared
+    def strip(v):
+        out = []
+        for st in v:
+            if isinstance(st, list):
+                st = list(st)
+                while st and st[-1] in (")", ";", ");"):
+                    st.pop()
+            out.append(st)
+        return out
+    return strip(got) == strip(want)
+
+
+def api_c_layout3(l1, l2, l3, l4, semi, blank, crlf):
+    from simple_ddl_parser import DDLParser
+    lines = []
+    for si, lay in enumerate((l1, l2, l3, l4)):
+        lines += _l3_lines(si, lay, semi, crlf)
+        if blank:
+            lines.append("\\r" if crlf else "")
+    text = "\n".join(ln.replace("\\r", "\r") for ln in lines) + "\n"
+    one = "\n".join(_l3_lines(si, 0, True, False)[0] for si in range(len(L3_STMTS))) + "\n"
+    got, want = DDLParser(text).run(), DDLParser(one).run()
+    return {"ddl": text, "got_tables": [t.get("table_name") for t in got], "expected_tables": [t.get("table_name") for t in want], "reproduced": got != want}
+
+
 def c_reach3(i1: int, i2: int, i3: int) -> bool:
     """
     C16.reach: as c_split3 - every statement of a three-line script is handed to the parser
